@@ -127,6 +127,7 @@ PROPS = {
                 "element destructors and callbacks re-enter the container (size, add, destroyObjects). The modelled timed_mutex flags any callback or destructor under the lock and any self-deadlock. Exploration only.",
         "assumptions": ["re-entry is not generated while the container itself is being destroyed; weak_ptr resurrection is out of scope", "a missing lock around the std::vector is invisible to the fiber runtime (no scheduling point inside): that class of change is the real-thread/TSan stage's job"],
         "stages": [{"family": "containers", "flavour": "plain", "target": "C20dd", "cases": (150000, 2000000), "maxsec": (20, 200)},
+                   {"family": "containers", "flavour": "plain", "target": "C20dds", "cases": (150000, 2000000), "maxsec": (20, 200)},
                    {"family": "containers", "flavour": "plain", "target": "C16s", "cases": (300000, 4000000), "maxsec": (30, 300)},
                    {"family": "containers", "flavour": "plain", "target": "C16", "cases": (400000, 6000000), "maxsec": (40, 400)},
                    {"family": "containers", "flavour": "plain", "target": "C16t", "cases": (150000, 2000000), "maxsec": (20, 200)},
@@ -273,6 +274,7 @@ PROPS["C20"] = {
         {"family": "lrcow", "flavour": "plain", "target": "C20cow", "cases": (200000, 3000000), "maxsec": (25, 300)},
         {"family": "deferred", "flavour": "plain", "target": "C20d", "cases": (200000, 3000000), "maxsec": (25, 300)},
         {"family": "containers", "flavour": "plain", "target": "C20dd", "cases": (200000, 3000000), "maxsec": (25, 300)},
+        {"family": "containers", "flavour": "plain", "target": "C20dds", "cases": (150000, 2000000), "maxsec": (20, 200)},
         {"family": "containers", "flavour": "plain", "target": "C20soh", "cases": (200000, 3000000), "maxsec": (25, 300)},
     ],
 }
@@ -314,6 +316,16 @@ _ENUM = [("C01", "locks", "C01", "enum/C01-guarded-mutex.case", (3, 4)), ("C02",
 for _pid, _fam, _tgt, _file, _k in _ENUM:
     PROPS[_pid]["stages"].append({"family": _fam, "flavour": "plain", "target": _tgt, "enum": {"mode": "sched", "file": _file, "maxpre": _k}, "cases": (0, 0), "min_nontrivial_frac": 0.0})
 PROPS["C14"]["stages"].append({"family": "c14", "flavour": "plain", "target": "C14", "enum": {"mode": "cfg", "cap": (3200000, 3200000)}, "cases": (0, 0), "min_nontrivial_frac": 0.0})
+
+# second compiler: a slice of every property's main fiber-runtime target is also run from a clang++ build (with AddressSanitizer + UBSan).
+# Behaviour that the language leaves to the implementation (order of evaluation of function arguments, layout, inlining) differs between
+# g++ and clang++; seeded change C03-h is wrong only under clang's left-to-right argument evaluation.
+_CLANG = [("C01", "locks", "C01"), ("C02", "locks", "C02"), ("C03", "lrcow", "C03"), ("C04", "lrcow", "C04"), ("C05", "rcu", "C05"), ("C06", "deferred", "C06"),
+          ("C07", "lrcow", "C03w"), ("C08", "locks", "C08"), ("C09", "prims", "C09"), ("C10", "prims", "C10"), ("C11", "prims", "C11"), ("C12", "rcu", "C12"),
+          ("C13", "rcu", "C13"), ("C14", "c14", "C14"), ("C15", "atomicreg", "C15a"), ("C16", "containers", "C16"), ("C17", "containers", "C17"),
+          ("C18", "containers", "C18"), ("C19", "tripwire", "C19"), ("C20", "lrcow", "C20lr")]
+for _pid, _fam, _tgt in _CLANG:
+    PROPS[_pid]["stages"].append({"family": _fam, "flavour": "asan", "target": _tgt, "cases": (40000, 600000), "maxsec": (25, 250)})
 
 # libFuzzer campaigns (thorough tier only): (property, family, target)
 _FUZZ = [("C01", "locks", "C01"), ("C02", "locks", "C02"), ("C03", "lrcow", "C03"), ("C04", "lrcow", "C04"), ("C05", "rcu", "C05"), ("C06", "deferred", "C06"),
